@@ -51,6 +51,71 @@ def kind_of(v):
     return v["k"]
 
 
+
+def json_text(v):
+    """JSON text that parse_json turns into the value (None: not expressible - options, any-objects)"""
+    k = v["k"]
+    if k == "null":
+        return None         # (JSON null is read as none, not as the value null)
+    if k == "bool":
+        return "true" if v["v"] else "false"
+    if k == "int":
+        return str(v["v"])
+    if k == "flt":
+        h = v["v"]
+        return ("%d.0" % (h // 2)) if h % 2 == 0 else ("%d.5" % (h // 2) if h > 0 else None)
+    if k == "str":
+        return json.dumps(v["v"])
+    if k == "list":
+        es = [json_text(e) for e in v["es"]]
+        return None if None in es else "[" + ",".join(es) + "]"
+    if k == "obj":        # (parse_json makes objects, not any-objects, of JSON objects)
+        vs = [json_text(e) for e in v["vs"]]
+        return None if None in vs else "{" + ",".join("%s:%s" % (json.dumps(key), t) for key, t in zip(v["ks"], vs)) + "}"
+    return None
+
+
+def type_src(t):
+    k = t["t"]
+    if k in ("int", "bool", "str", "null", "any"):
+        return k
+    if k == "flt":
+        return "float"
+    if k == "list":
+        e = type_src(t["e"])
+        return None if e is None else "[%s]" % e
+    if k == "opt":
+        e = type_src(t["e"])
+        return None if e is None else "?%s" % e
+    if k == "anyobj":
+        return "{ ? }"
+    if k == "obj":
+        ts = [type_src(x) for x in t["ts"]]
+        return None if None in ts else ("{ %s }" % ", ".join("%s: %s" % (a, b) for a, b in zip(t["ks"], ts)) if ts else None)
+    return None
+
+
+def carriers(c):
+    """source forms through which the (JSON) value meets the type; -> [(name, statements that end in `let v ... ;`)]"""
+    js = json.dumps(json_text(c["v"]))
+    ty = type_src(c["t"])
+    out = []
+    if c["conv"]:
+        out.append(("as", "let j: any = %s.parse_json(); let v = j as %s;" % (js, ty)))
+        return out
+    out.append(("let-any", "let v: %s = %s.parse_json();" % (ty, js)))
+    if c["t"]["t"] == "any" or c["v"]["k"] == "null":
+        return out          # (c->k of a null is none; `?any` admits everything)
+    arrow = "let c = %s.parse_json() as { ? }; " % json.dumps("{\"k\":" + json_text(c["v"]) + "}")
+    out.append(("let-arrow", arrow + "let v: ?%s = c->k;" % ty))
+    out.append(("let-list-of-arrows", arrow + "let v: [?%s] = [c->k];" % ty))
+    out.append(("let-object-of-arrow", arrow + "let v: { f: ?%s } = new { f: c->k };" % ty))
+    out.append(("argument", "let j: any = %s.parse_json(); takes(j);" % js))
+    out.append(("argument-arrow", arrow + "takes_opt(c->k);"))
+    out.append(("return-arrow", arrow + "let v = gives_opt(c);"))
+    out.append(("assign-arrow", arrow + "let v: ?%s = none; v = c->k;" % ty))
+    return out
+
 def run(args):
     rep = C.Report("C12")
     thorough = C.tier() == "thorough"
@@ -69,6 +134,7 @@ def run(args):
     else:
         runs += [(2, C.seed() % 40, 40)]
     total = 0
+    carried = []
     for depth, sl, n in runs:
         r = C.run_tlc("HmsCast", cfg(depth, sl, n), timeout=2400, heap="24g")
         C.tlc_must_pass(r, "HmsCast")
@@ -111,10 +177,47 @@ def run(args):
                     if got["path"] not in wants:
                         rep.fail(dict(feat, kind="wrong-path" if got["path"] else "path-missing"),
                                  {"case": c, "got": got, "acceptable_paths": wants})
+        carried += [c for c in cases if not c["r"].get("undecided") and json_text(c["v"]) is not None and type_src(c["t"]) is not None]
         for c in rnd.sample(cases, 2):
             rep.sample({"value": c["v"], "type": c["t"], "conv": c["conv"], "specified": c["r"]})
     rep.cov["exhaustive"] = True
     rep.notes["pairs"] = total
+
+    # ---- the same pairs inside programs: every form through which a dynamically typed value reaches a static type
+    # (annotated let of any / ?any / [?any] / { f: ?any }, `as`, argument, result): admitted iff HmsCast says it conforms,
+    # a refusal can be caught, and afterwards the variable really has its static type
+    sample = carried if thorough and len(carried) < 4000 else rnd.sample(carried, min(len(carried), 4000 if thorough else 500))
+    creqs = []
+    for c in sample:
+        ty = type_src(c["t"])
+        for cname, stmts in carriers(c):
+            src = ("fn takes(p: %s) { }\nfn takes_opt(p: ?%s) { }\nfn gives_opt(c: { ? }) -> ?%s { c->k }\n"
+                   "fn main() {\n    let keep = 41;\n    try { %s println(\"admitted\"); } catch e { println(\"refused\"); }\n    println(keep + 1);\n}\n" % (ty, ty, ty, stmts))
+            for b in ("vm", "tree"):
+                creqs.append((c, cname, b, src))
+    cres = pool.map([{"op": "run", "id": i, "a": {"modules": {"main": src}, "entry": "main", "backend": b, "timeout_ms": 8000}}
+                     for i, (c, cname, b, src) in enumerate(creqs)], timeout=30)
+    nrej = 0
+    for (c, cname, b, src), rr in zip(creqs, cres):
+        rep.count()
+        rep.nontrivial(("carrier", cname, b, src))
+        feat = {"family": "carrier", "form": cname, "backend": b, "conforms": c["r"]["ok"], "tkind": c["t"]["t"]}
+        if "crash" in rr or "hang" in rr:
+            from .sem import panic_class
+            rep.fail(dict(feat, kind="hostcrash" if "crash" in rr else "hang", panic=panic_class((rr.get("crash") or {}).get("stderr", ""))),
+                     {"source": src, "case": c, "real": str(rr)[:1200]})
+            continue
+        r = rr["r"]
+        if not r["accepted"]:
+            nrej += 1          # (the analyzer may see statically that the form cannot work, e.g. `takes` of an any without annotation)
+            continue
+        want = ("admitted" if c["r"]["ok"] else "refused") + "\n42\n"
+        if r["out"] != want or r["outcome"]["kind"] != "done":
+            rep.fail(dict(feat, kind="admitted-nonconforming" if "admitted" in r["out"] and not c["r"]["ok"] else
+                          ("refused-conforming" if "refused" in r["out"] and c["r"]["ok"] else "wrong-behaviour")),
+                     {"source": src, "case": c, "out": r["out"], "outcome": r["outcome"]})
+    rep.notes["carrier_programs"] = len(creqs)
+    rep.notes["carrier_programs_rejected_by_analyzer"] = nrej
 
     # ---- in-program forms: `expr as T`, annotated let, refusal is catchable and later code is intact
     progs = []
